@@ -293,13 +293,13 @@ func (fr *faultRunner) try(kind, where string, data []byte) {
 		res.Count("fault.panics", 1)
 		res.Count("panics", 1)
 		d := string(data)
-		fr.ck.violate(pi.signature(), fmt.Sprintf("%s panicked on a corrupted definition (%s at %s): %v", pi.Entry, kind, where, clip(fmt.Sprint(pi.Rec), 200)),
-			map[string]any{"seed": fr.label, "mutation": kind, "path": where, "input": clip(d, 20000), "panic": fmt.Sprint(pi.Rec), "stack": fw.TrimStack(pi.Stack)})
+		fr.ck.violate(pi.signature(), fmt.Sprintf("%s panicked on a corrupted definition (%s at %s): %v", pi.Call, kind, where, clip(fmt.Sprint(pi.Rec), 200)),
+			map[string]any{"seed": fr.label, "mutation": kind, "path": where, "input": clip(d, 20000), "call": pi.Call, "panic": fmt.Sprint(pi.Rec), "stack": fw.TrimStack(pi.Stack)})
 	}
 	fw.SetDetail("fault " + fr.label + " " + kind + " " + where)
 
 	var possible bool
-	if pi := guard("legacy.IsPossibleDefinition", func() { possible = legacy.IsPossibleDefinition(data) }); pi != nil {
+	if pi := guard("migrate", "legacy.IsPossibleDefinition", func() { possible = legacy.IsPossibleDefinition(data) }); pi != nil {
 		report(pi)
 	}
 	out, err, pi := migrateLatest(data)
